@@ -413,6 +413,14 @@ fn jtoken_to_runtime_object(
                 } else if p == "#n" {
                     name = Some(pv.as_str().ok_or_else(|| bad("a string"))?.to_string());
                 } else {
+                    // named content is always a container, i.e. an array: anything else is
+                    // refused here rather than descended into (an object nested in objects
+                    // would recurse without the depth guard that arrays have)
+                    if !matches!(pv, JsonValue::Array) {
+                        return Err(StoryError::BadJson(
+                            "Named content is not a container".to_owned(),
+                        ));
+                    }
                     let named_content_item = jtoken_to_runtime_object(tok, pv, Some(p.clone()))?;
 
                     let named_content_item = match named_content_item {
